@@ -173,6 +173,12 @@ def norm_cmp(op, ea, eb):
     # x > (e - 1)  ==  x >= e ;  x <= (e - 1) == x < e
     if isinstance(eb, E) and eb.op == '-' and len(eb.args) == 2 and const(eb.args[1]) == 1 and op in ('>', '<='):
         return E('>=' if op == '>' else '<', (ea, eb.args[0]), w=1)
+    # two non-constant operands: only `>=` and `<` are kept (`a <= b` is `b >= a`, `a > b` is `b < a`), so that a
+    # mirrored spelling of the same comparison has the same form
+    if op == '<=':
+        return E('>=', (eb, ea), w=1)
+    if op == '>':
+        return E('<', (eb, ea), w=1)
     return E(op, (ea, eb), w=1)
 
 
